@@ -215,7 +215,7 @@ func (c *c02Case) Exec() {
 	c.Fatal, c.Images, c.Skipped = "", nil, ""
 	dir := tmpDir("c02-")
 	defer os.RemoveAll(dir)
-	root := filepath.Join(dir, "db")
+	root := filepath.Join(dir, []string{"db", "sstable_db"}[len(c.Steps)%2])
 	must(os.MkdirAll(root, 0755))
 	ackPath := filepath.Join(dir, "ACK")
 	events, out, err := runTraced("c02wl", dbWlArgs{Dir: root, Ack: ackPath, Opts: c.Opts, Steps: c.Steps}, root, ackPath, filepath.Join(dir, "trace.txt"), 120*time.Second,
@@ -246,8 +246,9 @@ func (c *c02Case) Exec() {
 			return
 		}
 		seen[d] = true
-		cp := filepath.Join(dir, "cp")
-		os.RemoveAll(cp)
+		cp := filepath.Join(dir, "cp", filepath.Base(root)) // Open sees the same directory name as the session did
+		os.RemoveAll(filepath.Join(dir, "cp"))
+		must(os.MkdirAll(filepath.Join(dir, "cp"), 0755))
 		must(copyTree(img, cp))
 		ob := dbImgObs{Boundary: b, Acked: acked, InFlight: inflight, What: what}
 		if !c.NoAbs {
@@ -269,8 +270,9 @@ func (c *c02Case) Exec() {
 	// C10: on selected images the recovery itself runs under strace and is cut at every boundary
 	nestOn := func(si savedImg) {
 		ob := &c.Images[si.idx]
-		cp := filepath.Join(dir, "cpn")
-		os.RemoveAll(cp)
+		cp := filepath.Join(dir, "cpn", filepath.Base(root))
+		os.RemoveAll(filepath.Join(dir, "cpn"))
+		must(os.MkdirAll(filepath.Join(dir, "cpn"), 0755))
 		must(copyTree(si.path, cp))
 		os.Setenv("VERIF_NO_CLOSE", "1")
 		evs, _, err := runTraced("c02open", dbOpenArgs{Dir: cp, Opts: c.Opts, Keys: c.Keys}, cp, filepath.Join(dir, "NOACK"), filepath.Join(dir, "trace2.txt"), 60*time.Second,
@@ -293,8 +295,9 @@ func (c *c02Case) Exec() {
 				return
 			}
 			seen2[d2] = true
-			cp2 := filepath.Join(dir, "cp2")
-			os.RemoveAll(cp2)
+			cp2 := filepath.Join(dir, "cp2", filepath.Base(root))
+			os.RemoveAll(filepath.Join(dir, "cp2"))
+			must(os.MkdirAll(filepath.Join(dir, "cp2"), 0755))
 			must(copyTree(image, cp2))
 			so, cerr := runChild("c02open", dbOpenArgs{Dir: cp2, Opts: c.Opts, Keys: c.Keys}, 30*time.Second)
 			n := nestObs{Boundary: j, What: what, Alt: image != img2}
